@@ -115,6 +115,12 @@ def substitution_effect(model, X, substitutions, args=None, func=predict,
 	additional_func_kwargs = additional_func_kwargs or {}
 	_validate_variants(substitutions, X, "substitutions")
 
+	unique_substitutions = torch.unique(torch.as_tensor(substitutions), dim=0)
+	if len(torch.unique(unique_substitutions[:, :2], dim=0)) != len(
+		unique_substitutions):
+		raise ValueError("substitutions contains different characters for " +
+			"the same position of the same example.")
+
 	X_var = torch.clone(X)
 	X_var[substitutions[:, 0], :, substitutions[:, 1]] = 0
 	X_var[substitutions[:, 0], substitutions[:, 2], substitutions[:, 1]] = 1
